@@ -166,9 +166,23 @@ def run_case(case):
                 v['spec'] = {k: spec[k] for k in spec if k != 'system'}
             return dict(violations=viol, cells=[], counters=counters)
         del y0
-        for fid, (dtype, name, esize, off, offN) in sorted(ft.items()):
+        psize = ctypes.sizeof(rebound.Particle)
+        prng = random.Random(case.get('seed', 0) if isinstance(case.get('seed', 0), int) else 0)
+        pmembers = [(n_.lstrip('_'), getattr(rebound.Particle, n_).offset) for n_ in ('x', 'y', 'z', 'vx', 'vy', 'vz', 'ax', 'ay', 'az', 'm', 'r', 'last_collision', '_hash')]
+        work = []
+        for fid, row in sorted(ft.items()):
+            dtype, name, esize, off, offN = row
             if dtype in (12, 13):      # REB_OTHER / END
                 continue
+            if dtype in (9, 10) and esize == psize and name != 'var_config':
+                # arrays of struct reb_particle: every member that is persisted, in a random element (not only the first bytes of the array)
+                for mn, mo in pmembers:
+                    if name == 'ri_whfast.p_jh' and mn not in ('x', 'y', 'z', 'vx', 'vy', 'vz', 'm'):
+                        continue        # scratch particles: the other members carry no state (see vf/rt.py mask_pjh)
+                    work.append((fid, row, (mn, mo)))
+            else:
+                work.append((fid, row, None))
+        for fid, (dtype, name, esize, off, offN), pm in work:
             if name in members and members[name] != off:
                 viol.append(dict(mech='table:offset-of-field-is-another-member:%s' % name, msg='field table row %r points at offset %d, the C member of that name is at %d' % (name, off, members[name])))
                 off = members[name]
@@ -212,7 +226,10 @@ def run_case(case):
                 if not p:
                     continue
                 pos = 0
-                if name == 'var_config':
+                if pm is not None:
+                    pos = prng.randrange(max(1, min(n, x.N))) * psize + pm[1]
+                    counters['particle_member_perturbations'] = counters.get('particle_member_perturbations', 0) + 1
+                elif name == 'var_config':
                     pos = 32            # lrescale, not the sim pointer
                 elif name in ('ri_whfast.p_jh',):
                     pos = 8
@@ -220,7 +237,7 @@ def run_case(case):
                     pos = 64
                 b = ctypes.c_uint8.from_address(p + pos + 3)
                 b.value ^= 0x10
-                did = 'array element byte'
+                did = 'array element byte' if pm is None else 'particle member %s' % pm[0]
             elif dtype == 15:
                 v = ctypes.c_uint64.from_address(addr + off + 8)
                 v.value ^= 1 << 30
@@ -259,7 +276,7 @@ def run_case(case):
                 viol.append(dict(mech='compare:listed-field-change-invisible:%s' % name, msg='changing struct member %s (%s) does not change the saved content; diff=%d/%d' % (name, did, r1, r2)))
                 continue        # the perturbation did not reach the persisted content (e.g. re-derived by init): says nothing
             counters['perturbations_effective'] += 1
-            cells.append(['perturb', name])
+            cells.append(['perturb', name] + ([pm[0]] if pm else []))
             if r1 == 0 or r2 == 0 or eq:
                 viol.append(dict(mech='compare:difference-not-reported:%s' % name, msg='field %s (%s) changed persisted fields %r but diff(x,y)=%d diff(y,x)=%d ==%r' % (name, did, changed, r1, r2, eq)))
             del y
